@@ -42,13 +42,14 @@ Definition ladders_b (b : book) : bool := forallb (fun r => ladder_b (r_atb r) &
 Definition book_b (b : book) : bool :=
   negb (b_bsp_rec b) && ladders_b b &&
   forallb (fun r => forallb (fun e => 0 <=? snd e) (r_trd r) && negb (match r_status r with RRemoved => true | _ => false end)) (b_runners b).
-Definition action_b (a : action) : bool :=
+Definition action_b0 (a : action) : bool :=
   match a with
   | APlace _ _ _ (OLimit p s _ _ _) _ => (0 <? p) && (0 <=? s)
   | ACancel _ (Some x) => 0 <=? x
   | AReplace _ price _ => 0 <? price
   | _ => true
   end.
+Definition action_b (a : action) : bool := match a with AOn _ a' => action_b0 a' | _ => action_b0 a end.
 Definition event_b (sc : script) (n : Z) (e : event) : bool :=
   (if mstatus_eqb (b_status (ev_book e)) MClosed then ladders_b (ev_book e) else book_b (ev_book e)) &&
   forallb (fun st => forallb action_b (sc st (ev_market e) (ev_idx e))) (map Z.of_nat (seq 0 (Z.to_nat n))).
